@@ -23,7 +23,7 @@ fn gen_base(c: &mut Choice) -> Base {
         let (n, b) = small[c.idx(small.len())];
         (b.clone(), vec![b"memset".to_vec()], format!("sample {}", n))
     } else {
-        let o = RichOpts { override_chance: 30, corrupt_chance: 20, max_gap: 16, tables_early: false, allow_compressed: true, max_names: 5, shrink_chance: 0 };
+        let o = RichOpts { override_chance: 30, corrupt_chance: 20, max_gap: 16, tables_early: false, allow_compressed: true, max_names: 5, shrink_chance: 0, many_sections: false };
         let r = filegen::rich_file(c, &o);
         let note = format!("rich file with {} sections", r.built.shdrs.len());
         (r.built.bytes, r.dyn_names, note)
@@ -177,8 +177,8 @@ pub fn property() -> Property {
         id: "C17",
         level: "fault_enumeration",
         rule: "base cases are (file: a rich generated file or a linker-produced sample <= 16 KB) x (0..10 stream calls from the C07 vocabulary plus up to 3 repeats, so that a query that failed is asked again later) x (reader delivering unlimited or 24..88-byte chunks, optionally ErrorKind::Interrupted every n-th read, cursor initially at 0 or elsewhere). The base case is run fault-free to count its N I/O calls (every seek and every read); then EXHAUSTIVELY one run per call index k < N (300 sampled indices above that) for each of {error (ErrorKind::Other), premature EOF} x {transient (only call k), permanent (every call from k on)} and one transient error of another io::ErrorKind (Unsupported, WouldBlock, UnexpectedEof, TimedOut, PermissionDenied, InvalidData, BrokenPipe; rotating with k), plus 3 runs on a stream on which every SeekFrom::End fails (Other, Unsupported, one more kind), plus 6 random multi-fault schedules with legal short reads mixed in. Oracle: the call (open or query) during which an error/EOF fault fired returns Err (no panic, no Ok); every other call returns Err or exactly the content digest it returns on the fault-free stream; open never fails unless a fault fired during it. Non-trivial: a fault fired inside a query (not only in open) and a later query succeeded; distinct by (file, ops, reader) hash.",
-        assumptions: &["ErrorKind::Interrupted is not a failure (read_exact retries it) and does not consume an I/O call index", "a short read is legal reader behaviour, not a failure"],
-        subs: vec![Sub::new("faults", oracle, 1800, 60_000, 2_000_000).shrink(300)],
+        assumptions: &["a call that has not returned after 60 s on a file of at most 16 KB (a fault-free case takes milliseconds) has not returned an error: reported as a violation by the watchdog", "ErrorKind::Interrupted is not a failure (read_exact retries it) and does not consume an I/O call index", "a short read is legal reader behaviour, not a failure"],
+        subs: vec![Sub::new("faults", oracle, 1800, 60_000, 2_000_000).shrink(300).hang_violation().hang_secs(60)],
         extras: vec![crate::fuzz::c17_choice],
     }
 }
